@@ -202,7 +202,7 @@ SPEC = {
              'functionally equivalent gates. Case classes eq / comp / clean, const, dead computed from reference tables. '
              'Non-trivial: the result differs structurally from the argument.'),
     'assumptions': ['cut enumerator and SAT solver are stand-ins inside the quantified domain (any admissible cut family, any sound and complete solver)'],
-    'subs': [Sub('minimize', cases, check_minimize, {'quick': 1600, 'thorough': 12000}, shrink_quick=False)],
+    'subs': [Sub('minimize', cases, check_minimize, {'quick': 1600, 'thorough': 60000}, shrink_quick=False)],
     'required_classes': {'minimize': ['clean', 'comp', 'eq', 'dead', 'changed', 'smaller', 'clean&changed', 'policy:generated',
                                       'policy:reference', 'forked_solver', 'timeout_injection', 'unsupported_rejected',
                                       'basis:AIG', 'basis:XAIG', 'basis:FULL']},
